@@ -168,8 +168,8 @@ var seqPreambles = []string{
 	"mark 1 2",
 	"[1 2] (ab) /x",
 	"5 dict begin",
-	strings.Repeat("1 dict begin ", 17),        // dictionary stack at depth 19
-	strings.Repeat("1 ", 499),                  // operand stack at depth 499
+	strings.Repeat("1 dict begin ", 17), // dictionary stack at depth 19
+	strings.Repeat("1 ", 499),           // operand stack at depth 499
 	cidPrologue + "begincmap",
 	"{1} {2}",
 	"currentfile",
@@ -555,7 +555,9 @@ func repeatFamily(budget time.Duration) mc.Family {
 			}
 			return v
 		},
-		Describe: func(item int) string { return fmt.Sprintf("%s repeated %d times", csAlphabet[item%n].name, counts[item/n]) },
+		Describe: func(item int) string {
+			return fmt.Sprintf("%s repeated %d times", csAlphabet[item%n].name, counts[item/n])
+		},
 		CrashKey: func(item int) string { return "C01:crash:charstring-repeat:" + csAlphabet[item%n].name },
 	}
 }
